@@ -779,7 +779,8 @@ def identify_case(rng):
     """Identify tells the remote exactly the registered protocols and the listen/public addresses."""
     ka = 2500
     a = rand_cfg(rng, 0, ka=ka)
-    a.update({"identify": True, "tcp": True, "listen": rng.choice(["1", "12", "21"]), "lim": None, "known": None})
+    # real connections follow: transport settings that decide whether / how long a connection lives stay at their defaults
+    a.update({"identify": True, "tcp": True, "listen": rng.choice(["1", "12", "21"]), "lim": None, "known": None, "tcpc": []})
     b = base_cfg(1, ka, identify=True, user=[user()], rr=[{"name": "/r/a", "max": 64, "timeout": 500, "fb": ["/r/old"], "maxin": None}])
     if registrations(a) == "panic":
         a = base_cfg(0, ka, identify=True, user=[user()])
